@@ -1,4 +1,4 @@
-import Pfst.LinksLemmas
+import Pfst.LinksSwapLemmas
 
 /-!
 # C02 — an edited tree is observationally identical to a fresh parse of its own source
@@ -118,34 +118,6 @@ theorem unmake_frame (σ : Store) (t : Ast) :
     (unmake σ t).next = σ.next :=
   ⟨unmake_astF_frame t σ, unmake_fst_frame t σ, unmake_next t σ⟩
 
-mutual
-private theorem linked_back (σ : Store) : ∀ (t : Ast) (pf : Option Nat), linkedB σ pf t = true →
-    ∀ x ∈ ids t, ∀ f, σ.astF x = some f → (σ.fst f).a = some x
-  | .mk a _ fld kids, pf, h, x, hx, f, hf => by
-    simp only [linkedB] at h
-    simp only [ids, List.mem_cons] at hx
-    cases hg : σ.astF a with
-    | none => simp [hg] at h
-    | some g =>
-      simp only [hg, Bool.and_eq_true, beq_iff_eq] at h
-      cases hx with
-      | inl e =>
-        subst e
-        rw [hg] at hf
-        cases hf
-        exact h.1.1.1
-      | inr hk => exact linkedList_back σ kids (some g) h.2 x hk f hf
-private theorem linkedList_back (σ : Store) : ∀ (l : List Ast) (pf : Option Nat), linkedListB σ pf l = true →
-    ∀ x ∈ idsList l, ∀ f, σ.astF x = some f → (σ.fst f).a = some x
-  | [], _, _, x, hx, _, _ => by simp [idsList] at hx
-  | k :: rest, pf, h, x, hx, f, hf => by
-    simp only [linkedListB, Bool.and_eq_true] at h
-    simp only [idsList, List.mem_append] at hx
-    cases hx with
-    | inl h0 => exact linked_back σ k pf h.1 x h0 f hf
-    | inr h1 => exact linkedList_back σ rest pf h.2 x h1 f hf
-end
-
 /-- **linked_injective**: in a linked tree two different ASTs never share an FST object (`a ↦ a.f` is injective),
 because each FST points back at its own AST. -/
 theorem linked_injective (σ : Store) (t : Ast) (pf : Option Nat) (h : linkedB σ pf t = true) :
@@ -174,13 +146,10 @@ theorem unmake_keeps_linked (σ : Store) (t u : Ast) (pt pu : Option Nat)
   have : x = y := Option.some.inj h2
   exact hd x hx (this ▸ hy)
 
-/- Full statement (checked by the executable `linkInvB` on every graph dumped after every edit and after every direct
-`_set_ast` call, not proved in general position):
-  theorem setAst_inv (s) (f) (new) : LinkInv s → f is the FST of a node of s.root → new fresh and Nodup →
-      LinkInv (setAst s f new)
-Proved towards the general position: `linked_injective` (injectivity of `a ↦ a.f` on a linked tree) and
-`unmake_keeps_linked` (unmaking the old subtree leaves every disjoint linked subtree linked). Still missing: the
-composition along the spine from the root to `f` (re-linking the spine node's child list around the new subtree). -/
+/- The full statement for `_set_ast` is `setAst_inv` below (every non-root position) together with
+`setAst_inv_partial` (the root position, kept under its earlier name). Steps: `linked_injective` (injectivity of
+`a ↦ a.f` on a linked tree), `unmake_frame` / `unmake_keeps_linked` (unmaking the old subtree leaves every disjoint
+linked subtree linked), `Pfst.Links.swap_linked` (the spine from the root to `f`). -/
 /-- **setAst_inv (root position)**: replacing the AST under the root FST by a fresh tree (pairwise distinct ASTs
 without FSTs) re-establishes the link invariant, and the root FST object is the same object as before: the old tree is
 unmade (see `unmake_dead`), the root FST is kept, new FSTs are made below it. -/
@@ -225,6 +194,64 @@ theorem setAst_inv_partial (s : State) (new : Ast)
   simp only [LinkInv, linkInvB, Ast.setFld, Ast.id, linkedB_touch, Bool.and_eq_true, beq_iff_eq]
   refine ⟨?_, by simp only [touch]; exact h3A⟩
   simp only [linkedB, h3A, h3F, hpar.1, hpar.2, hrp.1, hrp.2, beq_self_eq_true, Bool.true_and, hl]
+
+/-- **setAst_inv (any non-root position)**: `_set_ast` on the FST `f` of any node `old` below the root of a linked tree
+with pairwise distinct ASTs, given a fresh `new` tree (pairwise distinct ASTs without FSTs): the link invariant holds
+for the whole resulting tree, which is the old tree with `new` (carrying `old`'s slot) in place of `old`; the root FST
+object is unchanged. Together with `setAst_inv_partial` (root position) this covers every position. The store
+hypothesis `hbd` says that the FST objects of the tree exist (`< next`). Any tree, any position, any new tree. -/
+theorem setAst_inv (s : State) (f : Nat) (old new : Ast)
+    (hinv : LinkInv s) (hnd : (ids s.root).Nodup)
+    (hbd : ∀ x ∈ ids s.root, ∀ g, s.σ.astF x = some g → g < s.σ.next)
+    (hold : findId old.id s.root = some old) (hf : s.σ.astF old.id = some f) (hne : s.root.id ≠ old.id)
+    (hnnd : (ids new).Nodup) (hfresh : ∀ x ∈ ids new, s.σ.astF x = none) :
+    LinkInv (setAst s f new) ∧ (setAst s f new).rootF = s.rootF ∧
+      (setAst s f new).root = replaceId old.id (new.setFld old.fld) s.root := by
+  simp only [LinkInv, linkInvB, Bool.and_eq_true, beq_iff_eq] at hinv
+  obtain ⟨hl, hrootF⟩ := hinv
+  have hback : ∀ x ∈ ids s.root, ∀ g, s.σ.astF x = some g → (s.σ.fst g).a = some x ∧ g < s.σ.next :=
+    fun x hx g hg => ⟨linked_back s.σ s.root none hl x hx g hg, hbd x hx g hg⟩
+  obtain ⟨_, holdR⟩ := findId_some s.root old.id old hold
+  have C := swapσ_ctx s.σ (ids s.root) old new f hback holdR hf hnnd hfresh
+  have hdn : ∀ x ∈ ids s.root, x ∉ ids new := fun x hx hn => linked_isSome s.σ s.root none hl x hx (hfresh x hn)
+  -- `old` is linked below the FST of its parent
+  obtain ⟨po, hpo, hc⟩ := linked_find s.σ s.root none old.id old hl hold
+  have hpo' : ∃ p, po = some p := by
+    cases hc with
+    | inl c => exact absurd c.2 hne
+    | inr c => cases po with
+      | none => simp at c
+      | some p => exact ⟨p, rfl⟩
+  obtain ⟨p, rfl⟩ := hpo'
+  have ho := linkedB_root s.σ (some p) old hpo f hf
+  have hspine := swap_linked C s.root none hl hnd (fun _ h => h) hdn hold
+  -- unfold the operation
+  have hn1 : (unmake s.σ old).astF new.id = none := unmake_keeps_none _ _ _ (hfresh _ (id_mem_ids new))
+  have hP : ((swapσ s.σ old f new).fst f).parent = some p := C.newFp.trans ho.2.1
+  have hQ : ((swapσ s.σ old f new).fst f).pfield = old.fld := C.newFq.trans ho.2.2.1
+  have hres : setAst s f new =
+      { s with root := replaceId old.id (new.setFld old.fld) s.root, σ := touch (swapσ s.σ old f new) f } := by
+    simp only [setAst, ho.1, Option.bind_some, hold, hn1, if_true, Bool.false_eq_true, if_false]
+    simp only [swapσ] at hP hQ
+    simp only [swapσ, hP, hQ]
+  rw [hres]
+  refine ⟨?_, rfl, rfl⟩
+  simp only [LinkInv, linkInvB, linkedB_touch, Bool.and_eq_true, beq_iff_eq]
+  refine ⟨hspine, ?_⟩
+  -- the root AST is not replaced and keeps its FST
+  rcases hroot : s.root with ⟨rid, rk, rf, rks⟩
+  have hne' : rid ≠ old.id := by rw [hroot] at hne; exact hne
+  rw [hroot] at hold hnd hdn hrootF
+  have hrootF' : s.σ.astF rid = some s.rootF := hrootF
+  simp only [findId, if_neg hne'] at hold
+  obtain ⟨_, hsub⟩ := findIdList_some rks old.id old hold
+  simp only [ids, List.nodup_cons] at hnd
+  have hro : rid ∉ ids old := fun h => hnd.1 (hsub rid h)
+  have hrn : rid ∉ ids new := hdn rid (by simp [ids])
+  simp only [replaceId, if_neg hne']
+  show (swapσ s.σ old f new).astF rid = some s.rootF
+  rw [C.astF_keep rid hro hrn]
+  exact hrootF'
 
 /- Full statement (checked by `linkInvB` on dumped graphs, not proved):
   theorem setField_inv (s) (f) (name) (new) : LinkInv s → f alive in s.root → new fresh and Nodup →
@@ -500,6 +527,14 @@ example : linkedB s1.σ (some 1) listSub = true ∧ linkedB s1.σ (some 1) nameS
     (∀ x ∈ ids nameSub, x ∉ ids listSub) := by decide
 example : linkedB (unmake s1.σ listSub) (some 1) nameSub = true ∧ (unmake s1.σ listSub).astF 4 = none ∧
     linkedB (unmake s1.σ listSub) (some 1) listSub = false := by decide
+-- `setAst_inv` (general position): its hypotheses are met by s1 with old = the List `[a, b]` (AST 3, FST 3) and the
+-- fresh `f(c)`; the conclusion is the state s2 evaluated above
+example : LinkInv s1 ∧ (ids s1.root).Nodup ∧ s1.σ.astF listSub.id = some 3
+    ∧ s1.root.id ≠ listSub.id ∧ (ids newCall).Nodup := by unfold LinkInv; decide
+example : findId listSub.id s1.root = some listSub := rfl
+example : (∀ x ∈ ids s1.root, ∀ g, s1.σ.astF x = some g → g < s1.σ.next) ∧ (∀ x ∈ ids newCall, s1.σ.astF x = none) := by
+  decide
+example : s2.root = replaceId listSub.id (newCall.setFld listSub.fld) s1.root := rfl
 -- root position of `setAst_inv_partial`
 example : s1.rootF < s1.σ.next ∧ (s1.σ.fst s1.rootF).a = some s1.root.id ∧ (s1.σ.fst s1.rootF).parent = none := by decide
 example : LinkInv (setAst s1 0 (.mk 30 "Module" none [ .mk 31 "Pass" (fld "body" (some 0)) [] ])) := by
